@@ -25,13 +25,14 @@ def generate(tier, seed):
     for name, spec in cells:
         cases.append({"cid": f"cell-{name}", "family": "cell:" + name.split(".")[0], "kind": "grid", "spec": spec,
                       "wide": False, "limit": 400 if tier == "quick" else 3000, "rng": seed,
-                      "skip_foreign_invalid": True})
+                      "skip_foreign_invalid": True, "sel_wide": True})
     nmix = 50 if tier == "quick" else 800
     for i in range(nmix):
         r = random.Random(f"{seed}-c02-mix-{i}")
         spec = gen.random_spec(r, n_tasks=r.randint(2, 3 if tier == "quick" else 4), profile=PROFILE)
         cases.append({"cid": f"mix-grid-{i}", "family": "mixture", "kind": "grid", "spec": spec, "wide": False,
-                      "limit": 40 if tier == "quick" else 150, "rng": seed * 1000 + i, "skip_foreign_invalid": True})
+                      "limit": 40 if tier == "quick" else 150, "rng": seed * 1000 + i, "skip_foreign_invalid": True,
+                      "sel_wide": True})
         for j, cfg in enumerate(({}, {"random_values": True})):
             cases.append({"cid": f"mix-free-{i}-{j}", "family": "mixture-free", "kind": "solve", "spec": spec,
                           "plan": {"solver": cfg, "py_seed": seed + i}})
